@@ -68,6 +68,7 @@ impl Check for C12 {
             host_faults: true,
             recording_filter: false,
             max_ports: 3,
+            shared_segments: true,
         };
         let mut d = Driver::new(ch, cfg);
         d.w.timer_cover = true;
@@ -87,8 +88,11 @@ impl Check for C12 {
         }
         let mut desc = json!({"node": d.node_desc, "ops": d.ops.iter().take(60).collect::<Vec<_>>(), "n_ops": d.ops.len(), "start_states": format!("{:?}", start_states), "slave_only_now": slave_only});
         if !variant_b {
-            // (a) total silence
+            // (a) total silence: nothing is heard any more, not even the instance's own other ports
             d.silence_all();
+            for sg in d.w.segments.iter_mut() {
+                sg.cut = true;
+            }
             let tmax = d.w.nodes[0].ports.iter().map(|p| (2 * p.spec.receipt_timeout as u128 + 6) * p.announce_interval()).max().unwrap();
             let t1 = d.w.now() + tmax;
             d.advance(ch, t1);
@@ -135,14 +139,19 @@ impl Check for C12 {
                 m.sync_on = true;
             }
             // a second pdelay responder would keep the port Faulty: excluded by the premise
-            let hp = &d.w.nodes[0].ports[p];
-            let bound = (2 * hp.spec.receipt_timeout as u128 + 8) * hp.announce_interval();
-            let di = hp.delay_interval();
+            // ports of the instance that share the segment hear the same master: one of them becomes
+            // its slave (the others passive); bounds over the group, verdict on the one that is slave
+            let seg_p = d.w.nodes[0].ports[p].segment;
+            let group: Vec<usize> = (0..np).filter(|q| d.w.nodes[0].ports[*q].segment == seg_p).collect();
+            let bound = group.iter().map(|q| (2 * d.w.nodes[0].ports[*q].spec.receipt_timeout as u128 + 8) * d.w.nodes[0].ports[*q].announce_interval()).max().unwrap();
+            let di_max = group.iter().map(|q| d.w.nodes[0].ports[*q].delay_interval().max(hp_ai(&d, *q))).max().unwrap();
             let t1 = d.w.now() + bound;
             d.advance(ch, t1);
-            let t2 = t1 + 24 * di.max(hp_ai(&d, p));
+            let t2 = t1 + 24 * di_max;
             d.advance(ch, t2);
+            let p = group.iter().copied().find(|q| d.w.nodes[0].ports[*q].state() == PState::Slave).unwrap_or(p);
             let hp = &d.w.nodes[0].ports[p];
+            let di = hp.delay_interval();
             let st = hp.state();
             let key = format!("variant=better_master start={:?} p2p={} master_only={}", start_states[p], hp.spec.p2p, hp.spec.master_only);
             let may_be_slave = !hp.spec.master_only && !(1..=127).contains(&own_class);
@@ -169,6 +178,8 @@ impl Check for C12 {
             d.w.out = out;
             desc["variant"] = json!("better_master");
             desc["port"] = json!(p);
+            desc["final_states"] = json!(format!("{:?}", d.w.nodes[0].states()));
+            desc["state_transitions_of_the_instance_so_far"] = json!(d.w.transitions);
         }
         d.w.out.nontrivial = true;
         d.w.out.sample = Some(desc);
